@@ -5,7 +5,9 @@
   Differences from `Ref` are deliberate: this file follows the *code* (order of checks, exact
   error class, entry order = insertion order), `Ref` follows the contract.  `FsProofs/MemRefines`
   relates the two.  What is abstracted: file handles are sessions (open … close inside one
-  call), `copy_dir` (walker + bulk copier) is the tree-level merge, timestamps are dropped.
+  call), `copy_dir` (walker + bulk copier) is the tree-level merge (no longer a modelling decision:
+  `FsProofs/BaseWalkLaws.mem_copydir_is_operational` / `mem_movedir_is_operational` prove that it agrees with the
+  algorithm as coded — `FsModel.BaseWalk` over these very primitives —, entry order aside), timestamps are dropped.
 -/
 import FsModel.Ref
 
